@@ -1,15 +1,1561 @@
-//! C06 — engine not implemented yet.
+//! C06 — task scheduling follows the IEC 61131-3 task model on every timeline (core X2:
+//! explicit-state search by replay).
+//!
+//! Explored: generated `CONFIGURATION … TASK … PROGRAM … WITH …` texts × timelines. One timeline
+//! step = (advance the clock by `dt` ms, set the SINGLE variables g1/g2, run one cycle of the real
+//! `Runtime`). A state is the timeline that reaches it; it is rebuilt by compiling the text again
+//! and replaying the timeline. Histories are merged when the reference-model state (of every
+//! reading that is still alive, see below) AND the runtime's own `TaskState` (clock - last_run,
+//! last_single; read from `impl Debug for Runtime`, used for merging only) are equal. The search
+//! is breadth-first and level-synchronous over all configurations, simplest first, so a wall cap
+//! leaves "every configuration to depth L" as the covered set.
+//!
+//! Observed per cycle: `RuntimeEvent::TaskStart` names (tasks executed, in order), an execution
+//! log written by the generated program / FB bodies into a global (`xlog := xlog*16 + id`, reset
+//! to 0 by the harness before every cycle) and `Runtime::task_overrun_count`.
+//!
+//! Oracle: a small task model implementing exactly the property statement. Points on which the
+//! statement is silent are kept as *readings*; all readings run along the history, a reading
+//! dies when it does not explain a cycle, and a violation is reported only when NO reading is
+//! left (the signature then names the first cycle at which the documented reading, the first
+//! alternative of every point below, fails):
+//!   A "since the last activation" of a task with INTERVAL and SINGLE: last periodic activation /
+//!     last activation of any kind;
+//!   B first periodic activation after start: INTERVAL after start / immediately (as if the task had
+//!     been activated one INTERVAL before start);
+//!   C overruns of a gap spanning k>=2 intervals: k-1 (one per missed activation) / 1 (one per
+//!     incident) / only the missed activation instants at which SINGLE was false (nothing is
+//!     "missed" while SINGLE gates the task);
+//!   D time of the last activation after a late activation: the cycle time / the nominal grid
+//!     point (docs/specs/10-runtime.md §6.6 "eligible again on the next interval boundary");
+//!   E "due time" of a late periodic activation: first missed instant (longest waiting, docs §6.2)
+//!     / the instant that is actually served.
+//! Not in the alphabet (expected behaviour not derivable from statement + docs): SINGLE variables
+//! written by the programs themselves during a cycle, several programs on one task (order inside a
+//! task), several un-tasked programs whose configuration order differs from their POU order,
+//! clock moving backwards, non-BOOL / missing SINGLE variables.
 
 use crate::fw::*;
 use crate::iso::WorkerFn;
-use serde_json::Value;
+use crate::par::par_map;
+use serde_json::{json, Value as J};
+use std::collections::HashSet;
+use std::time::{Duration as StdDuration, Instant};
+use trust_runtime::debug::RuntimeEvent;
+use trust_runtime::harness::TestHarness;
+use trust_runtime::value::{Duration, Value};
 
-pub fn run(_ctx: &Ctx) -> EngineResult {
-    machinery("engine C06 not implemented")
+// ------------------------------------------------------------------------------------------------
+// configurations
+// ------------------------------------------------------------------------------------------------
+
+#[derive(Clone, Debug, PartialEq, Eq, Hash)]
+pub struct TaskSpec {
+    /// `None`: no INTERVAL input written; `Some(n)`: `INTERVAL := T#<n>ms`
+    pub interval: Option<u32>,
+    pub prio: u32,
+    /// `None`: no SINGLE input; `Some(0)` = g1, `Some(1)` = g2
+    pub single: Option<usize>,
 }
 
-pub fn check_case(_case: &Value) -> Vec<Violation> {
-    Vec::new()
+impl TaskSpec {
+    fn iv(&self) -> i64 {
+        self.interval.unwrap_or(0) as i64
+    }
+    fn kind(&self) -> &'static str {
+        match (self.iv() > 0, self.single.is_some()) {
+            (true, true) => "mixed",
+            (true, false) => "periodic",
+            (false, true) => "event",
+            (false, false) => "inert",
+        }
+    }
+}
+
+#[derive(Clone, Debug, PartialEq, Eq, Hash)]
+pub struct CfgSpec {
+    pub family: String,
+    pub tasks: Vec<TaskSpec>,
+    pub g_init: [bool; 2],
+    /// 0: one un-tasked program declared after the tasked ones; 1: one, declared first;
+    /// 2: two, one first and one last
+    pub bg_layout: u8,
+    /// `PROGRAM … WITH` lines in reverse task order
+    pub prog_rev: bool,
+    /// `Some(k)`: the program of task 0 holds an FB instance `fb` associated `WITH` task k
+    pub fb_task: Option<usize>,
+    /// wrap the declarations in `RESOURCE R ON CPU … END_RESOURCE`
+    pub resource: bool,
+}
+
+const ID_FB: u8 = 9;
+const ID_BG0: u8 = 10;
+const ID_BG1: u8 = 11;
+
+impl CfgSpec {
+    fn to_json(&self) -> J {
+        json!({
+            "family": self.family,
+            "tasks": self.tasks.iter().map(|t| json!({
+                "interval": t.interval, "prio": t.prio, "single": t.single
+            })).collect::<Vec<_>>(),
+            "g_init": [self.g_init[0], self.g_init[1]],
+            "bg_layout": self.bg_layout,
+            "prog_rev": self.prog_rev,
+            "fb_task": self.fb_task,
+            "resource": self.resource,
+        })
+    }
+    fn from_json(v: &J) -> Option<CfgSpec> {
+        let mut tasks = Vec::new();
+        for t in v["tasks"].as_array()? {
+            tasks.push(TaskSpec {
+                interval: t["interval"].as_u64().map(|x| x as u32),
+                prio: t["prio"].as_u64()? as u32,
+                single: t["single"].as_u64().map(|x| x as usize),
+            });
+        }
+        Some(CfgSpec {
+            family: v["family"].as_str().unwrap_or("?").to_string(),
+            tasks,
+            g_init: [v["g_init"][0].as_bool()?, v["g_init"][1].as_bool()?],
+            bg_layout: v["bg_layout"].as_u64()? as u8,
+            prog_rev: v["prog_rev"].as_bool()?,
+            fb_task: v["fb_task"].as_u64().map(|x| x as usize),
+            resource: v["resource"].as_bool().unwrap_or(false),
+        })
+    }
+    fn bg_ids(&self) -> Vec<u8> {
+        match self.bg_layout {
+            2 => vec![ID_BG0, ID_BG1],
+            _ => vec![ID_BG0],
+        }
+    }
+    fn uses(&self, g: usize) -> bool {
+        self.tasks.iter().any(|t| t.single == Some(g))
+    }
+    fn shared_single(&self, i: usize) -> bool {
+        let s = self.tasks[i].single;
+        s.is_some() && self.tasks.iter().enumerate().any(|(j, t)| j != i && t.single == s)
+    }
+
+    /// The ST text. POUs are declared in the same order as the PROGRAM configuration entries.
+    pub fn source(&self) -> String {
+        use std::fmt::Write;
+        let mut s = String::new();
+        let ext = "VAR_EXTERNAL\n    xlog : LINT;\nEND_VAR\n";
+        if self.fb_task.is_some() {
+            let _ = write!(
+                s,
+                "FUNCTION_BLOCK FbLog\n{ext}xlog := xlog * LINT#16 + LINT#{ID_FB};\nEND_FUNCTION_BLOCK\n\n"
+            );
+        }
+        // PROGRAM configuration entries: (instance, type, task, id)
+        let mut entries: Vec<(String, String, Option<usize>, u8)> = Vec::new();
+        if self.bg_layout >= 1 {
+            entries.push(("IB0".into(), "ProgB0".into(), None, ID_BG0));
+        }
+        let order: Vec<usize> = if self.prog_rev {
+            (0..self.tasks.len()).rev().collect()
+        } else {
+            (0..self.tasks.len()).collect()
+        };
+        for i in order {
+            entries.push((format!("I{i}"), format!("Prog{i}"), Some(i), (i + 1) as u8));
+        }
+        match self.bg_layout {
+            0 => entries.push(("IB0".into(), "ProgB0".into(), None, ID_BG0)),
+            2 => entries.push(("IB1".into(), "ProgB1".into(), None, ID_BG1)),
+            _ => {}
+        }
+        for (_, ty, task, id) in &entries {
+            let _ = writeln!(s, "PROGRAM {ty}");
+            if self.fb_task.is_some() && *task == Some(0) {
+                s.push_str("VAR\n    fb : FbLog;\nEND_VAR\n");
+            }
+            let _ = write!(s, "{ext}xlog := xlog * LINT#16 + LINT#{id};\nEND_PROGRAM\n\n");
+        }
+        s.push_str("CONFIGURATION C\n");
+        if self.resource {
+            s.push_str("RESOURCE R ON CPU\n");
+        }
+        let b = |v: bool| if v { "TRUE" } else { "FALSE" };
+        let _ = write!(
+            s,
+            "VAR_GLOBAL\n    g1 : BOOL := {};\n    g2 : BOOL := {};\n    xlog : LINT := 0;\nEND_VAR\n",
+            b(self.g_init[0]),
+            b(self.g_init[1])
+        );
+        for (i, t) in self.tasks.iter().enumerate() {
+            let mut parts = Vec::new();
+            if let Some(g) = t.single {
+                parts.push(format!("SINGLE := g{}", g + 1));
+            }
+            if let Some(n) = t.interval {
+                parts.push(format!("INTERVAL := T#{n}ms"));
+            }
+            parts.push(format!("PRIORITY := {}", t.prio));
+            let _ = writeln!(s, "TASK T{i} ({});", parts.join(", "));
+        }
+        for (inst, ty, task, _) in &entries {
+            let with = match task {
+                Some(i) => format!(" WITH T{i}"),
+                None => String::new(),
+            };
+            let fb = match (self.fb_task, task) {
+                (Some(k), Some(0)) => format!(" (fb WITH T{k})"),
+                _ => String::new(),
+            };
+            let _ = writeln!(s, "PROGRAM {inst}{with} : {ty}{fb};");
+        }
+        if self.resource {
+            s.push_str("END_RESOURCE\n");
+        }
+        s.push_str("END_CONFIGURATION\n");
+        s
+    }
+
+    /// execution units (log ids) of task i; their relative order is not fixed by the statement
+    fn units(&self, i: usize) -> Vec<u8> {
+        let mut u = vec![(i + 1) as u8];
+        if self.fb_task == Some(i) {
+            u.push(ID_FB);
+        }
+        u
+    }
+}
+
+/// one timeline step
+#[derive(Clone, Copy, Debug, PartialEq, Eq, Hash)]
+pub struct Ev {
+    pub dt: i64,
+    pub g: [bool; 2],
+}
+
+const DTS: [i64; 5] = [0, 1, 2, 3, 7];
+
+fn events_for(cfg: &CfgSpec) -> Vec<Ev> {
+    // a SINGLE variable that no task reads cannot influence anything: it keeps its initial value
+    let v1: Vec<bool> = if cfg.uses(0) { vec![false, true] } else { vec![cfg.g_init[0]] };
+    let v2: Vec<bool> = if cfg.uses(1) { vec![false, true] } else { vec![cfg.g_init[1]] };
+    let mut out = Vec::new();
+    for &dt in &DTS {
+        for &a in &v1 {
+            for &b in &v2 {
+                out.push(Ev { dt, g: [a, b] });
+            }
+        }
+    }
+    out
+}
+
+fn tl_json(tl: &[Ev]) -> J {
+    J::Array(tl.iter().map(|e| json!([e.dt, e.g[0], e.g[1]])).collect())
+}
+
+fn tl_from_json(v: &J) -> Option<Vec<Ev>> {
+    let mut out = Vec::new();
+    for e in v.as_array()? {
+        out.push(Ev { dt: e[0].as_i64()?, g: [e[1].as_bool()?, e[2].as_bool()?] });
+    }
+    Some(out)
+}
+
+// ------------------------------------------------------------------------------------------------
+// driving the real runtime
+// ------------------------------------------------------------------------------------------------
+
+#[derive(Clone, Debug, Default)]
+pub struct Obs {
+    /// tasks started in this cycle (declaration indices; usize::MAX = unknown name)
+    pub tasks: Vec<usize>,
+    /// execution log of program / FB bodies
+    pub log: Vec<u8>,
+    /// cumulative overrun counter per task after the cycle
+    pub ovr: Vec<u64>,
+    /// error returned by the cycle
+    pub err: Option<String>,
+}
+
+pub enum ReplayErr {
+    Compile(String),
+    Panic(String),
+    Harness(String),
+}
+
+fn int_of(v: &Value) -> Option<i128> {
+    Some(match v {
+        Value::SInt(x) => *x as i128,
+        Value::Int(x) => *x as i128,
+        Value::DInt(x) => *x as i128,
+        Value::LInt(x) => *x as i128,
+        Value::USInt(x) => *x as i128,
+        Value::UInt(x) => *x as i128,
+        Value::UDInt(x) => *x as i128,
+        Value::ULInt(x) => *x as i128,
+        _ => return None,
+    })
+}
+
+/// Scheduling memory of the real runtime after the last step: per task (clock - last_run in ns,
+/// last_single). `TaskState` has no public accessor; it is read from `impl Debug for Runtime`
+/// and used ONLY to canonicalise states (histories are merged only when the model state and this
+/// hidden state are both equal), never by the oracle. `None` if the Debug text is not understood.
+pub type Hidden = Option<Vec<(i64, bool)>>;
+
+fn hidden_state(dbg: &str, n_tasks: usize) -> Hidden {
+    let num_after = |s: &str, key: &str| -> Option<i64> {
+        let i = s.find(key)? + key.len();
+        let rest = &s[i..];
+        let end = rest.find(|c: char| !(c.is_ascii_digit() || c == '-')).unwrap_or(rest.len());
+        rest[..end].parse().ok()
+    };
+    let ts = &dbg[dbg.find("task_state: {")?..];
+    let now = {
+        let ct = &ts[ts.find("current_time: ")?..];
+        num_after(ct, "nanos: ")?
+    };
+    let mut out = Vec::new();
+    for i in 0..n_tasks {
+        let key = format!("\"T{i}\": TaskState {{");
+        let t = &ts[ts.find(&key)? + key.len()..];
+        let t = &t[..t.find("overrun_count")?];
+        let ls = &t[t.find("last_single: ")? + "last_single: ".len()..];
+        let last_single = if ls.starts_with("true") {
+            true
+        } else if ls.starts_with("false") {
+            false
+        } else {
+            return None;
+        };
+        let lr = &t[t.find("last_run: ")?..];
+        out.push((now - num_after(lr, "nanos: ")?, last_single));
+    }
+    Some(out)
+}
+
+/// Compiles `src` and replays the timeline on a fresh runtime; one observation per step.
+pub fn replay(cfg: &CfgSpec, src: &str, tl: &[Ev]) -> Result<(Vec<Obs>, Hidden), ReplayErr> {
+    let r = catch(|| -> Result<(Vec<Obs>, Hidden), ReplayErr> {
+        let mut h = TestHarness::from_source(src).map_err(|e| ReplayErr::Compile(format!("{e}")))?;
+        let debug = h.runtime_mut().enable_debug();
+        let names: Vec<String> = (0..cfg.tasks.len()).map(|i| format!("T{i}")).collect();
+        if h.runtime().tasks().len() != cfg.tasks.len() {
+            return Err(ReplayErr::Harness(format!(
+                "{} tasks registered for {} TASK declarations",
+                h.runtime().tasks().len(),
+                cfg.tasks.len()
+            )));
+        }
+        let mut out = Vec::with_capacity(tl.len());
+        for ev in tl {
+            h.advance_time(Duration::from_millis(ev.dt));
+            {
+                let st = h.runtime_mut().storage_mut();
+                st.set_global("g1", Value::Bool(ev.g[0]));
+                st.set_global("g2", Value::Bool(ev.g[1]));
+                st.set_global("xlog", Value::LInt(0));
+            }
+            let _ = debug.drain_runtime_events();
+            let res = h.cycle();
+            let mut o = Obs::default();
+            if let Some(e) = res.errors.first() {
+                o.err = Some(format!("{e:?}"));
+            }
+            for e in debug.drain_runtime_events() {
+                if let RuntimeEvent::TaskStart { name, .. } = e {
+                    o.tasks.push(names.iter().position(|n| n == name.as_str()).unwrap_or(usize::MAX));
+                }
+            }
+            let raw = h
+                .runtime()
+                .storage()
+                .get_global("xlog")
+                .and_then(int_of)
+                .ok_or_else(|| ReplayErr::Harness("global xlog unreadable".into()))?;
+            let mut x = raw;
+            if x < 0 {
+                return Err(ReplayErr::Harness(format!("negative execution log {raw}")));
+            }
+            while x > 0 {
+                o.log.push((x % 16) as u8);
+                x /= 16;
+            }
+            o.log.reverse();
+            for n in &names {
+                o.ovr.push(h.runtime().task_overrun_count(n).unwrap_or(u64::MAX));
+            }
+            let stop = o.err.is_some();
+            out.push(o);
+            if stop {
+                break;
+            }
+        }
+        let hidden = hidden_state(&format!("{:?}", h.runtime()), cfg.tasks.len());
+        Ok((out, hidden))
+    });
+    match r {
+        Ok(x) => x,
+        Err(m) => Err(ReplayErr::Panic(m)),
+    }
+}
+
+// ------------------------------------------------------------------------------------------------
+// reference model (independent of the subject): the property statement, per reading
+// ------------------------------------------------------------------------------------------------
+
+#[derive(Clone, Copy, Debug, PartialEq, Eq)]
+pub struct Reading {
+    /// A: event activations also count as "the last activation"
+    any: bool,
+    /// B: first periodic activation is due immediately at start
+    immediate: bool,
+    /// C: 0 = k-1 overruns, 1 = one per incident, 2 = only instants at which SINGLE was false
+    ovr: u8,
+    /// D: last activation := nominal grid point instead of the cycle time
+    grid: bool,
+    /// E: due time of a late activation = the served instant instead of the first missed one
+    served: bool,
+}
+
+impl Reading {
+    fn name(&self) -> String {
+        format!(
+            "last={} first={} overruns={} phase={} due={}",
+            if self.any { "any-activation" } else { "periodic-activation" },
+            if self.immediate { "immediately" } else { "after-one-interval" },
+            ["per-missed-activation", "per-incident", "ungated-instants-only"][self.ovr as usize],
+            if self.grid { "grid" } else { "cycle-time" },
+            if self.served { "served-instant" } else { "first-missed-instant" },
+        )
+    }
+}
+
+/// Readings that can differ on this configuration (A and C=2 need a task with INTERVAL and SINGLE,
+/// E needs two tasks, everything needs a task with INTERVAL > 0).
+pub fn readings_for(cfg: &CfgSpec) -> Vec<Reading> {
+    let periodic = cfg.tasks.iter().any(|t| t.iv() > 0);
+    let mixed = cfg.tasks.iter().any(|t| t.kind() == "mixed");
+    let many = cfg.tasks.len() > 1;
+    readings()
+        .into_iter()
+        .filter(|r| {
+            (periodic || (!r.immediate && !r.grid && r.ovr == 0))
+                && (mixed || (!r.any && r.ovr != 2))
+                && (many || !r.served)
+        })
+        .collect()
+}
+
+/// Fixed order; the first one is the reading documented in docs/specs/10-runtime.md §4.3.
+pub fn readings() -> Vec<Reading> {
+    let mut v = Vec::new();
+    for immediate in [false, true] {
+        for grid in [false, true] {
+            for any in [false, true] {
+                for ovr in [0u8, 1, 2] {
+                    for served in [false, true] {
+                        v.push(Reading { any, immediate, ovr, grid, served });
+                    }
+                }
+            }
+        }
+    }
+    v
+}
+
+#[derive(Clone, Debug, PartialEq, Eq, Hash)]
+struct TaskM {
+    /// time of "the last activation" (start of the run initially)
+    last: i64,
+    last_single: bool,
+    /// reading C=2 only: number of nominal activation instants `last + j*INTERVAL` (j >= 1) that
+    /// lie before the previous cycle's successor (i.e. already passed) at which SINGLE was false
+    ungated: i64,
+    /// reading C=2 only: SINGLE value at the most recent such instant
+    last_instant_single: bool,
+}
+
+#[derive(Clone, Debug)]
+struct ModelState {
+    /// clock value of the previous cycle (0 = start)
+    prev_now: i64,
+    tasks: Vec<TaskM>,
+}
+
+#[derive(Clone, Debug)]
+struct TaskEval {
+    single_now: bool,
+    edge: bool,
+    elapsed: i64,
+    /// number of whole intervals elapsed when periodically due
+    k: i64,
+    /// Some((due time, "event" | "periodic")) when due
+    due: Option<(i64, &'static str)>,
+    ovr: u64,
+}
+
+#[derive(Clone, Debug)]
+struct Pred {
+    order: Vec<usize>,
+    evals: Vec<TaskEval>,
+}
+
+fn model_init(r: Reading, cfg: &CfgSpec) -> ModelState {
+    ModelState {
+        prev_now: 0,
+        tasks: cfg
+            .tasks
+            .iter()
+            .map(|t| {
+                let init_single = t.single.map(|g| cfg.g_init[g]).unwrap_or(false);
+                TaskM {
+                    last: if r.immediate { -t.iv() } else { 0 },
+                    last_single: init_single,
+                    ungated: 0,
+                    last_instant_single: false,
+                }
+            })
+            .collect(),
+    }
+}
+
+fn model_step(r: Reading, cfg: &CfgSpec, st: &mut ModelState, now: i64, g: [bool; 2]) -> Pred {
+    let mut evals = Vec::with_capacity(cfg.tasks.len());
+    let mut ready: Vec<(u32, i64, usize)> = Vec::new();
+    let prev_now = st.prev_now;
+    st.prev_now = now;
+    for (i, t) in cfg.tasks.iter().enumerate() {
+        let m = &mut st.tasks[i];
+        let single_now = t.single.map(|v| g[v]).unwrap_or(false);
+        let edge = t.single.is_some() && !m.last_single && single_now;
+        let iv = t.iv();
+        let elapsed = now - m.last;
+        let track_gate = r.ovr == 2 && t.single.is_some() && iv > 0;
+        let mut e = TaskEval { single_now, edge, elapsed, k: 0, due: None, ovr: 0 };
+        if track_gate {
+            // nominal activation instants in [prev_now, now): SINGLE had its previous value there
+            let lo = (prev_now - m.last + iv - 1).div_euclid(iv).max(1); // first j with last+j*iv >= prev_now
+            let hi = (now - 1 - m.last).div_euclid(iv); // last j with last+j*iv < now
+            if hi >= lo {
+                if !m.last_single {
+                    m.ungated += hi - lo + 1;
+                }
+                m.last_instant_single = m.last_single;
+            }
+        }
+        if edge {
+            e.due = Some((now, "event"));
+            if r.any {
+                m.last = now;
+                m.ungated = 0;
+            }
+        }
+        if iv > 0 && !single_now && elapsed >= iv {
+            // (an edge needs SINGLE true now, so the two triggers never coincide)
+            let k = elapsed / iv;
+            e.k = k;
+            e.ovr = match r.ovr {
+                0 => (k - 1) as u64,
+                1 => (k > 1) as u64,
+                _ => {
+                    if track_gate {
+                        // the instant last+k*iv is the one served now; if it lies before `now` it
+                        // has been counted above and is taken out again
+                        let served_counted = m.last + k * iv < now && !m.last_instant_single;
+                        (m.ungated - served_counted as i64).max(0) as u64
+                    } else {
+                        (k - 1) as u64
+                    }
+                }
+            };
+            let due_at = if r.served { m.last + k * iv } else { m.last + iv };
+            e.due = Some((due_at, "periodic"));
+            m.last = if r.grid { m.last + k * iv } else { now };
+            m.ungated = 0;
+        }
+        m.last_single = single_now;
+        if let Some((d, _)) = e.due {
+            ready.push((t.prio, d, i));
+        }
+        evals.push(e);
+    }
+    // ascending PRIORITY number, then earlier due time, then declaration order
+    ready.sort();
+    Pred { order: ready.into_iter().map(|x| x.2).collect(), evals }
+}
+
+/// state of one reading relative to `now`, for the canonical key
+fn model_key(cfg: &CfgSpec, st: &ModelState, now: i64, out: &mut Vec<i64>) {
+    for (t, m) in cfg.tasks.iter().zip(&st.tasks) {
+        out.push(if t.iv() > 0 { now - m.last } else { 0 });
+        out.push(m.last_single as i64);
+        out.push(m.ungated);
+        out.push((m.ungated > 0 && m.last_instant_single) as i64);
+    }
+}
+
+// ------------------------------------------------------------------------------------------------
+// comparing one cycle with one reading
+// ------------------------------------------------------------------------------------------------
+
+/// log expected for a task order: units of each task (any order inside a task), then the
+/// un-tasked programs in declaration order
+fn log_matches(cfg: &CfgSpec, order: &[usize], log: &[u8]) -> bool {
+    let mut pos = 0;
+    for &i in order {
+        let mut u = cfg.units(i);
+        let n = u.len();
+        if pos + n > log.len() {
+            return false;
+        }
+        let mut got = log[pos..pos + n].to_vec();
+        got.sort();
+        u.sort();
+        if got != u {
+            return false;
+        }
+        pos += n;
+    }
+    log[pos..] == cfg.bg_ids()[..]
+}
+
+struct Verdict {
+    set_ok: bool,
+    order_ok: bool,
+    log_ok: bool,
+    ovr_ok: bool,
+}
+
+impl Verdict {
+    fn ok(&self) -> bool {
+        self.set_ok && self.order_ok && self.log_ok && self.ovr_ok
+    }
+}
+
+fn compare(cfg: &CfgSpec, p: &Pred, o: &Obs, prev_ovr: &[u64]) -> Verdict {
+    let mut a = p.order.clone();
+    let mut b = o.tasks.clone();
+    a.sort();
+    b.sort();
+    let set_ok = a == b;
+    let order_ok = p.order == o.tasks;
+    // the log is only judged when the task sequence itself is right, so that one defect is not
+    // reported under two clauses
+    let log_ok = if order_ok {
+        log_matches(cfg, &p.order, &o.log)
+    } else {
+        true
+    };
+    let ovr_ok = (0..cfg.tasks.len()).all(|i| o.ovr[i].checked_sub(prev_ovr[i]) == Some(p.evals[i].ovr));
+    Verdict { set_ok, order_ok, log_ok, ovr_ok }
+}
+
+fn norm_msg(m: &str) -> String {
+    let s: String = m.chars().map(|c| if c.is_ascii_digit() { '#' } else { c }).take(60).collect();
+    s
+}
+
+/// Signature + description of the disagreement between a cycle and reading `r`.
+fn diagnose(cfg: &CfgSpec, r: Reading, p: &Pred, o: &Obs, prev_ovr: &[u64], v: &Verdict) -> (String, String) {
+    let names = |x: &[usize]| {
+        x.iter()
+            .map(|i| if *i == usize::MAX { "?".to_string() } else { format!("T{i}") })
+            .collect::<Vec<_>>()
+            .join(",")
+    };
+    let head = format!(
+        "executed tasks [{}], log {:?}; the documented reading ({}) expects tasks [{}]",
+        names(&o.tasks),
+        o.log,
+        r.name(),
+        names(&p.order)
+    );
+    if o.tasks.iter().any(|i| *i == usize::MAX) {
+        return ("C06/events/unknown-task-name".into(), format!("TaskStart for a task that was not declared; {head}"));
+    }
+    if !v.set_ok {
+        // executed more than once
+        for (i, t) in cfg.tasks.iter().enumerate() {
+            let n = o.tasks.iter().filter(|x| **x == i).count();
+            if n > 1 {
+                return (
+                    format!("C06/once/{}", t.kind()),
+                    format!("task T{i} started {n} times in one cycle; {head}"),
+                );
+            }
+        }
+        // due but not executed
+        for (i, t) in cfg.tasks.iter().enumerate() {
+            if p.order.contains(&i) && !o.tasks.contains(&i) {
+                let e = &p.evals[i];
+                let why = match e.due {
+                    Some((_, "event")) => "event".to_string(),
+                    _ => {
+                        if e.k > 1 {
+                            "periodic-after-gap".to_string()
+                        } else if e.elapsed == t.iv() {
+                            "periodic-exact".to_string()
+                        } else {
+                            "periodic-late".to_string()
+                        }
+                    }
+                };
+                let shared = if why == "event" && cfg.shared_single(i) { "/shared-single" } else { "" };
+                return (
+                    format!("C06/due/missing/{why}/{}{shared}", t.kind()),
+                    format!(
+                        "task T{i} ({}, INTERVAL {} ms) is due ({why}: elapsed {} ms, SINGLE now {}, edge {}) but was not executed; {head}",
+                        t.kind(), t.iv(), e.elapsed, e.single_now, e.edge
+                    ),
+                );
+            }
+        }
+        // executed but not due
+        for (i, t) in cfg.tasks.iter().enumerate() {
+            if !p.order.contains(&i) && o.tasks.contains(&i) {
+                let e = &p.evals[i];
+                let cond = if t.single.is_some() && e.single_now {
+                    "single-held"
+                } else if t.iv() == 0 {
+                    "no-trigger"
+                } else if e.elapsed < t.iv() {
+                    "early"
+                } else {
+                    "other"
+                };
+                return (
+                    format!("C06/due/spurious/{cond}/{}", t.kind()),
+                    format!(
+                        "task T{i} ({}, INTERVAL {} ms) was executed but is not due ({cond}: elapsed {} ms, SINGLE now {}, edge {}); {head}",
+                        t.kind(), t.iv(), e.elapsed, e.single_now, e.edge
+                    ),
+                );
+            }
+        }
+    }
+    if !v.order_ok {
+        let pos = (0..p.order.len()).find(|&k| p.order[k] != o.tasks[k]).unwrap_or(0);
+        let (a, b) = (p.order[pos], o.tasks[pos]);
+        let (da, db) = (p.evals[a].due.unwrap(), p.evals[b].due.unwrap());
+        let clause = if cfg.tasks[a].prio != cfg.tasks[b].prio {
+            "priority".to_string()
+        } else if da.0 != db.0 {
+            let mut k = [da.1, db.1];
+            k.sort();
+            format!("due-time/{}+{}", k[0], k[1])
+        } else {
+            "declaration".to_string()
+        };
+        return (
+            format!("C06/order/{clause}"),
+            format!(
+                "T{a} (PRIORITY {}, due at {} ms) must run before T{b} (PRIORITY {}, due at {} ms); {head}",
+                cfg.tasks[a].prio, da.0, cfg.tasks[b].prio, db.0
+            ),
+        );
+    }
+    if !v.log_ok {
+        let bg = cfg.bg_ids();
+        let count = |id: u8| o.log.iter().filter(|x| **x == id).count();
+        let detail = if bg.iter().any(|id| count(*id) == 0) {
+            "background-missing"
+        } else if bg.iter().any(|id| count(*id) > 1) {
+            "background-twice"
+        } else if cfg.fb_task.is_some() && count(ID_FB) != p.order.iter().filter(|i| cfg.fb_task == Some(**i)).count() {
+            "fb-instance"
+        } else if (0..cfg.tasks.len()).any(|i| count((i + 1) as u8) != p.order.iter().filter(|x| **x == i).count()) {
+            "task-program"
+        } else if o.log.len() >= bg.len() && o.log[o.log.len() - bg.len()..] != bg[..] {
+            "background-position"
+        } else {
+            "sequence"
+        };
+        let mut exp: Vec<u8> = p.order.iter().flat_map(|i| cfg.units(*i)).collect();
+        exp.extend(bg);
+        return (
+            format!("C06/programs/{detail}"),
+            format!("program/FB bodies executed in the cycle: {:?}, expected {:?} (1..8 = program of task 0..7, 9 = FB instance, 10/11 = un-tasked programs); {head}", o.log, exp),
+        );
+    }
+    // overruns
+    for (i, t) in cfg.tasks.iter().enumerate() {
+        let got = o.ovr[i].checked_sub(prev_ovr[i]);
+        let exp = p.evals[i].ovr;
+        if got != Some(exp) {
+            let what = match got {
+                Some(g) if exp == 0 && g > 0 => {
+                    if p.evals[i].due.is_some() { "spurious" } else { "spurious-not-due" }
+                }
+                Some(0) => "uncounted",
+                _ => "miscount",
+            };
+            return (
+                format!("C06/overrun/{what}/{}", t.kind()),
+                format!(
+                    "overrun counter of T{i} ({}, INTERVAL {} ms) changed by {:?} in this cycle, expected {exp} (elapsed {} ms = {} whole intervals); {head}",
+                    t.kind(), t.iv(), got, p.evals[i].elapsed, p.evals[i].k
+                ),
+            );
+        }
+    }
+    ("C06/unexplained".into(), head)
+}
+
+// ------------------------------------------------------------------------------------------------
+// judging a whole history
+// ------------------------------------------------------------------------------------------------
+
+pub struct Judgement {
+    /// canonical key after the last step (None: do not expand)
+    pub key: Option<Vec<i64>>,
+    /// (step at which no reading is left, signature, description)
+    pub violation: Option<(usize, String, String)>,
+    /// readings alive at the end
+    pub alive: usize,
+    pub tasks_run: usize,
+    pub overruns: u64,
+    pub multi: bool,
+    /// reading #0 explains the whole history
+    pub primary_alive: bool,
+    pub hidden_seen: bool,
+}
+
+fn case_json(cfg: &CfgSpec, tl: &[Ev]) -> J {
+    json!({"cfg": cfg.to_json(), "timeline": tl_json(tl), "source": cfg.source()})
+}
+
+/// Runs all readings along the observations.
+pub fn judge(cfg: &CfgSpec, tl: &[Ev], obs: &[Obs], hidden: &Hidden) -> Judgement {
+    let rds = readings_for(cfg);
+    let mut alive: Vec<(usize, ModelState)> =
+        rds.iter().enumerate().map(|(i, r)| (i, model_init(*r, cfg))).collect();
+    let mut now = 0i64;
+    let mut prev_ovr = vec![0u64; cfg.tasks.len()];
+    let mut primary_fail: Option<(String, String)> = None;
+    let mut j = Judgement { key: None, violation: None, alive: 0, tasks_run: 0, overruns: 0, multi: false, primary_alive: false, hidden_seen: false };
+    for (step, ev) in tl.iter().enumerate() {
+        now += ev.dt;
+        let Some(o) = obs.get(step) else {
+            return j;
+        };
+        if let Some(e) = &o.err {
+            let variant: String = e.chars().take_while(|c| c.is_alphanumeric() || *c == '_').collect();
+            j.violation = Some((
+                step,
+                format!("C06/cycle-error/{variant}"),
+                format!("execute_cycle failed with {e} at step {step} of the timeline; no task model explains a failing cycle"),
+            ));
+            return j;
+        }
+        let mut next = Vec::new();
+        for (ri, mut st) in alive.into_iter() {
+            let p = model_step(rds[ri], cfg, &mut st, now, ev.g);
+            let v = compare(cfg, &p, o, &prev_ovr);
+            if v.ok() {
+                next.push((ri, st));
+            } else if ri == 0 {
+                // The signature of a history that no reading explains is taken from the point at
+                // which the documented reading (#0, docs/specs/10-runtime.md §4.3) fails first:
+                // that names the behaviour that deviates, instead of a follow-up symptom relative
+                // to whichever reading happened to survive longest.
+                let (sig, what) = diagnose(cfg, rds[0], &p, o, &prev_ovr, &v);
+                primary_fail = Some((
+                    sig,
+                    format!("step {step} (t = {now} ms, g1 = {}, g2 = {}): {what}", ev.g[0], ev.g[1]),
+                ));
+            }
+        }
+        if next.is_empty() {
+            let (sig, what) = primary_fail.clone().expect("reading #0 has failed when all have");
+            j.violation = Some((
+                step,
+                sig,
+                format!("{what}. None of the {} readings of the statement explains the history up to step {step}.", rds.len()),
+            ));
+            return j;
+        }
+        alive = next;
+        j.tasks_run += o.tasks.len();
+        j.multi |= o.tasks.len() > 1;
+        j.overruns += o.ovr.iter().zip(&prev_ovr).map(|(a, b)| a - b).sum::<u64>();
+        prev_ovr = o.ovr.clone();
+    }
+    let mut key = Vec::new();
+    let mut mask = 0i64;
+    for (ri, _) in &alive {
+        mask |= 1 << ri;
+    }
+    key.push(mask);
+    for (_, st) in &alive {
+        model_key(cfg, st, now, &mut key);
+    }
+    // hidden state of the implementation, restricted to the fields the configuration can make
+    // relevant (last_run only matters with INTERVAL > 0, last_single only with a SINGLE input)
+    match hidden {
+        Some(h) => {
+            for (t, (el, ls)) in cfg.tasks.iter().zip(h) {
+                key.push(if t.iv() > 0 { *el } else { 0 });
+                key.push((t.single.is_some() && *ls) as i64);
+            }
+        }
+        None => key.push(-1),
+    }
+    j.hidden_seen = hidden.is_some();
+    j.alive = alive.len();
+    j.primary_alive = primary_fail.is_none();
+    j.key = Some(key);
+    j
+}
+
+fn eval_history(cfg: &CfgSpec, src: &str, tl: &[Ev]) -> Result<Judgement, Violation> {
+    match replay(cfg, src, tl) {
+        Ok((obs, hidden)) => Ok(judge(cfg, tl, &obs, &hidden)),
+        Err(ReplayErr::Panic(m)) => Err(Violation {
+            signature: format!("C06/panic/cycle/{}", norm_msg(&m)),
+            what: format!("the runtime panicked while compiling / replaying the timeline: {m}"),
+            case: case_json(cfg, tl),
+        }),
+        Err(ReplayErr::Compile(m)) => Err(Violation {
+            signature: "C06/machinery/compile".into(),
+            what: m,
+            case: case_json(cfg, tl),
+        }),
+        Err(ReplayErr::Harness(m)) => Err(Violation {
+            signature: "C06/machinery/harness".into(),
+            what: m,
+            case: case_json(cfg, tl),
+        }),
+    }
+}
+
+pub fn check_case(case: &J) -> Vec<Violation> {
+    let (Some(cfg), Some(tl)) = (CfgSpec::from_json(&case["cfg"]), tl_from_json(&case["timeline"])) else {
+        return Vec::new();
+    };
+    let src = cfg.source();
+    match eval_history(&cfg, &src, &tl) {
+        Ok(j) => j
+            .violation
+            .into_iter()
+            .map(|(step, signature, what)| Violation { signature, what, case: case_json(&cfg, &tl[..=step]) })
+            .collect(),
+        Err(v) if v.signature.starts_with("C06/machinery/") => Vec::new(),
+        Err(v) => vec![v],
+    }
+}
+
+// ------------------------------------------------------------------------------------------------
+// enumeration of configurations
+// ------------------------------------------------------------------------------------------------
+
+/// SINGLE assignments up to renaming of g1/g2: the first SINGLE variable used is g1
+fn canonical_singles(tasks: &[TaskSpec]) -> bool {
+    match tasks.iter().find_map(|t| t.single) {
+        None | Some(0) => true,
+        Some(_) => false,
+    }
+}
+
+fn product(menu: &[TaskSpec], n: usize) -> Vec<Vec<TaskSpec>> {
+    let mut out: Vec<Vec<TaskSpec>> = vec![Vec::new()];
+    for _ in 0..n {
+        let mut next = Vec::new();
+        for p in &out {
+            for m in menu {
+                let mut q = p.clone();
+                q.push(m.clone());
+                next.push(q);
+            }
+        }
+        out = next;
+    }
+    out.retain(|t| canonical_singles(t));
+    out
+}
+
+fn base(family: &str, tasks: Vec<TaskSpec>) -> CfgSpec {
+    CfgSpec {
+        family: family.to_string(),
+        tasks,
+        g_init: [false, false],
+        bg_layout: 0,
+        prog_rev: false,
+        fb_task: None,
+        resource: false,
+    }
+}
+
+fn kind(interval: Option<u32>, single: Option<usize>) -> TaskSpec {
+    TaskSpec { interval, prio: 0, single }
+}
+
+/// all task lists: one kind per task (product, up to renaming of g1/g2) x the given priority patterns
+fn combos(kinds: &[TaskSpec], n: usize, prios: &[&[u32]]) -> Vec<Vec<TaskSpec>> {
+    let mut out = Vec::new();
+    for tasks in product(kinds, n) {
+        for p in prios {
+            let mut t = tasks.clone();
+            for (x, pr) in t.iter_mut().zip(p.iter()) {
+                x.prio = *pr;
+            }
+            out.push(t);
+        }
+    }
+    out
+}
+
+/// The explored configurations with the timeline depth of each, simplest first.
+/// Equal-priority patterns are represented once (all 0), since only the relative order matters.
+pub fn configs(tier: Tier) -> Vec<(CfgSpec, usize)> {
+    let q = tier == Tier::Quick;
+    let mut out: Vec<(CfgSpec, usize)> = Vec::new();
+    let (p2, p3) = (kind(Some(2), None), kind(Some(3), None));
+    let e1 = kind(None, Some(0));
+    let (m21, m31) = (kind(Some(2), Some(0)), kind(Some(3), Some(0)));
+    let all_single = [None, Some(0), Some(1)];
+    let kinds_of = |ivs: &[Option<u32>], singles: &[Option<usize>], inert: bool| -> Vec<TaskSpec> {
+        let mut v = Vec::new();
+        for &i in ivs {
+            for &s in singles {
+                let k = kind(i, s);
+                if inert || k.kind() != "inert" {
+                    v.push(k);
+                }
+            }
+        }
+        v
+    };
+
+    // one task: INTERVAL absent / 0 / 2 / 3 ms x SINGLE none / g1 x PRIORITY 0 / 1
+    for t in combos(&kinds_of(&[None, Some(0), Some(2), Some(3)], &[None, Some(0)], true), 1, &[&[0], &[1]]) {
+        out.push((base("base1", t), tier.pick(4, 7)));
+    }
+    // one task, SINGLE variable initially TRUE
+    for t in combos(&kinds_of(&[None, Some(2), Some(3)], &[Some(0)], false), 1, &[&[0]]) {
+        let mut c = base("ginit1", t);
+        c.g_init = [true, false];
+        out.push((c, tier.pick(4, 6)));
+    }
+    // one task, un-tasked program declared before the tasked one
+    for t in combos(&[p2.clone(), e1.clone(), m21.clone()], 1, &[&[0]]) {
+        let mut c = base("layout1", t);
+        c.bg_layout = 1;
+        out.push((c, tier.pick(3, 5)));
+    }
+
+    // two tasks: the whole menu
+    let two_iv: &[Option<u32>] = if q { &[None, Some(2), Some(3)] } else { &[None, Some(0), Some(2), Some(3)] };
+    let deep2 = [p2.clone(), p3.clone(), e1.clone(), m21.clone()];
+    // (a task with neither trigger next to another task only in the thorough tier)
+    for t in combos(&kinds_of(two_iv, &all_single, !q), 2, &[&[0, 0], &[0, 1], &[1, 0]]) {
+        // thorough: the pairs over {2 ms, 3 ms, event g1, 2 ms + g1} one step deeper
+        if !q && t.iter().all(|x| deep2.iter().any(|k| k.interval == x.interval && k.single == x.single)) {
+            out.push((base("base2d", t), 5));
+        } else {
+            out.push((base("base2", t), tier.pick(3, 4)));
+        }
+    }
+    // two tasks, g1 initially TRUE
+    let gi_kinds: Vec<TaskSpec> = if q {
+        vec![p2.clone(), e1.clone(), m21.clone(), m31.clone()]
+    } else {
+        kinds_of(&[None, Some(2), Some(3)], &all_single, false)
+    };
+    for t in combos(&gi_kinds, 2, &[&[0, 0], &[1, 0]]) {
+        let mut c = base("ginit2", t);
+        if !c.uses(0) {
+            continue;
+        }
+        c.g_init = [true, false];
+        out.push((c, tier.pick(2, 3)));
+    }
+    // two tasks, two un-tasked programs (first and last), PROGRAM lines in reverse task order,
+    // RESOURCE wrapper
+    let lay_kinds: Vec<TaskSpec> = if q {
+        vec![p2.clone(), p3.clone(), e1.clone(), m21.clone()]
+    } else {
+        kinds_of(&[None, Some(2), Some(3)], &all_single, false)
+    };
+    for t in combos(&lay_kinds, 2, &[&[0, 0], &[1, 0]]) {
+        let mut c = base("layout2", t);
+        c.bg_layout = 2;
+        c.prog_rev = true;
+        c.resource = true;
+        out.push((c, tier.pick(2, 3)));
+    }
+    // two tasks and an FB instance held by the program of task 0, associated with task 0 or 1
+    let fb_kinds: Vec<TaskSpec> = if q {
+        vec![p2.clone(), e1.clone(), m31.clone()]
+    } else {
+        kinds_of(&[None, Some(2), Some(3)], &all_single, false)
+    };
+    for t in combos(&fb_kinds, 2, &[&[0, 0], &[1, 0]]) {
+        for k in 0..2 {
+            let mut c = base("fb2", t.clone());
+            c.fb_task = Some(k);
+            c.resource = true;
+            out.push((c, tier.pick(2, 3)));
+        }
+    }
+
+    // three tasks, every priority pattern
+    let pr3: [&[u32]; 7] = [&[0, 0, 0], &[0, 0, 1], &[0, 1, 0], &[1, 0, 0], &[0, 1, 1], &[1, 0, 1], &[1, 1, 0]];
+    let small3 = [p2.clone(), p3.clone(), e1.clone(), m21.clone()];
+    for t in combos(&small3, 3, &pr3) {
+        out.push((base("base3", t), tier.pick(2, 3)));
+    }
+    if !q {
+        for t in combos(&kinds_of(&[None, Some(2), Some(3)], &all_single, false), 3, &pr3) {
+            if t.iter().all(|x| small3.iter().any(|k| k.interval == x.interval && k.single == x.single)) {
+                continue; // already above, deeper
+            }
+            out.push((base("base3w", t), 2));
+        }
+        // four tasks
+        let pr4: [&[u32]; 3] = [&[0, 0, 0, 0], &[1, 0, 0, 0], &[0, 1, 0, 1]];
+        let small4 = [p2.clone(), e1.clone(), m21.clone()];
+        for t in combos(&small4, 4, &pr4) {
+            out.push((base("base4", t), 3));
+        }
+        for t in combos(&kinds_of(&[None, Some(2), Some(3)], &[None, Some(0)], false), 4, &pr4) {
+            if t.iter().all(|x| small4.iter().any(|k| k.interval == x.interval && k.single == x.single)) {
+                continue;
+            }
+            out.push((base("base4w", t), 2));
+        }
+        // a fixed family of 6 tasks
+        let t = |interval: Option<u32>, prio: u32, single: Option<usize>| TaskSpec { interval, prio, single };
+        out.push((
+            base(
+                "six",
+                vec![
+                    t(Some(2), 1, None),
+                    t(Some(3), 1, None),
+                    t(None, 1, Some(0)),
+                    t(Some(2), 1, Some(0)),
+                    t(Some(3), 0, Some(1)),
+                    t(None, 1, Some(1)),
+                ],
+            ),
+            3,
+        ));
+        out.push((
+            base(
+                "six",
+                vec![
+                    t(Some(3), 0, None),
+                    t(Some(2), 0, None),
+                    t(Some(2), 0, Some(0)),
+                    t(None, 0, Some(0)),
+                    t(Some(3), 0, None),
+                    t(Some(2), 1, None),
+                ],
+            ),
+            3,
+        ));
+    }
+    out
+}
+
+// ------------------------------------------------------------------------------------------------
+// search: breadth-first over timelines, level by level over ALL configurations (so that a wall cap
+// leaves a well-defined covered set: every configuration to depth L-1, a prefix of them to depth L)
+// ------------------------------------------------------------------------------------------------
+
+/// 128-bit fingerprint of a canonical key (two FNV-1a variants); the `seen` sets store these.
+fn fingerprint(key: &[i64]) -> u128 {
+    let mut a: u64 = 0xcbf29ce484222325;
+    let mut b: u64 = 0x84222325cbf29ce4;
+    for v in key {
+        for byte in v.to_le_bytes() {
+            a ^= byte as u64;
+            a = a.wrapping_mul(0x100000001b3);
+            b = (b ^ (byte as u64).wrapping_add(0x9e)).wrapping_mul(0x00000100000001b5).rotate_left(5);
+        }
+    }
+    ((a as u128) << 64) | b as u128
+}
+
+#[derive(Default)]
+struct CfgStats {
+    states: u64,
+    transitions: u64,
+    depth_completed: usize,
+    capped: bool,
+    /// first violation per signature with the number of histories showing it
+    violations: Vec<(Violation, u64)>,
+    machinery: Option<String>,
+    cycles_with_tasks: u64,
+    cycles_multi: u64,
+    overruns: u64,
+    min_alive: usize,
+    primary_dead: u64,
+    hidden_missing: u64,
+    sample: Option<J>,
+    trans_by_depth: Vec<u64>,
+}
+
+impl CfgStats {
+    fn add_violation(&mut self, v: Violation) {
+        match self.violations.iter_mut().find(|x| x.0.signature == v.signature) {
+            Some(x) => x.1 += 1,
+            None => self.violations.push((v, 1)),
+        }
+    }
+}
+
+struct Search {
+    cfg: CfgSpec,
+    src: String,
+    evs: Vec<Ev>,
+    max_depth: usize,
+    seen: HashSet<u128>,
+    frontier: Vec<Vec<Ev>>,
+    stats: CfgStats,
+    finished: bool,
+}
+
+/// result of one transition (frontier history `fi` extended by event `ei`)
+struct EvalOut {
+    fi: usize,
+    ei: usize,
+    key: Option<u128>,
+    violation: Option<Box<Violation>>,
+    machinery: Option<Box<String>>,
+    alive: usize,
+    primary_alive: bool,
+    hidden_seen: bool,
+    tasks_run: bool,
+    multi: bool,
+    overruns: u64,
+}
+
+fn eval_transition(s: &Search, fi: usize, ei: usize) -> EvalOut {
+    let mut tl = s.frontier[fi].clone();
+    tl.push(s.evs[ei]);
+    let mut out = EvalOut {
+        fi,
+        ei,
+        key: None,
+        violation: None,
+        machinery: None,
+        alive: 0,
+        primary_alive: true,
+        hidden_seen: true,
+        tasks_run: false,
+        multi: false,
+        overruns: 0,
+    };
+    match eval_history(&s.cfg, &s.src, &tl) {
+        Ok(j) => {
+            if let Some((step, signature, what)) = j.violation {
+                out.violation = Some(Box::new(Violation { signature, what, case: case_json(&s.cfg, &tl[..=step]) }));
+            }
+            if let Some(k) = &j.key {
+                out.key = Some(fingerprint(k));
+                out.alive = j.alive;
+                out.primary_alive = j.primary_alive;
+                out.hidden_seen = j.hidden_seen;
+                out.tasks_run = j.tasks_run > 0;
+                out.multi = j.multi;
+                out.overruns = j.overruns;
+            }
+        }
+        Err(v) => {
+            if v.signature.starts_with("C06/machinery/") {
+                out.machinery = Some(Box::new(format!("{}: {}", v.signature, v.what)));
+            } else {
+                out.violation = Some(Box::new(v));
+            }
+        }
+    }
+    out
+}
+
+fn new_search(cfg: CfgSpec, max_depth: usize) -> Search {
+    let src = cfg.source();
+    let evs = events_for(&cfg);
+    let mut s = Search {
+        cfg,
+        src,
+        evs,
+        max_depth,
+        seen: HashSet::new(),
+        frontier: vec![Vec::new()],
+        stats: CfgStats { states: 1, min_alive: usize::MAX, ..Default::default() },
+        finished: false,
+    };
+    match eval_history(&s.cfg, &s.src, &[]) {
+        Ok(j) => {
+            if let Some(k) = j.key {
+                s.seen.insert(fingerprint(&k));
+            }
+        }
+        Err(v) => {
+            if v.signature.starts_with("C06/machinery/") {
+                s.stats.machinery = Some(format!("{}: {}", v.signature, v.what));
+            } else {
+                s.stats.add_violation(v);
+            }
+            s.finished = true;
+        }
+    }
+    s
+}
+
+/// frontier histories per work item
+const CHUNK: usize = 24;
+
+pub fn run(ctx: &Ctx) -> EngineResult {
+    quiet_panics();
+    let mut rep = Report::new("model_checking");
+    // C06_WALL / C06_DEPTHS are measurement aids only
+    let wall = std::env::var("C06_WALL").ok().and_then(|s| s.parse().ok()).unwrap_or(ctx.tier.pick(38u64, 840));
+    let deadline = Instant::now() + StdDuration::from_secs(wall);
+    let mut cfgs = configs(ctx.tier);
+    if let Some(d) = std::env::var("C06_DEPTHS").ok().map(|s| s.split(',').filter_map(|x| x.parse().ok()).collect::<Vec<usize>>()) {
+        // measurement aid: depth per number of tasks
+        for (c, depth) in cfgs.iter_mut() {
+            *depth = d[(c.tasks.len() - 1).min(d.len() - 1)];
+        }
+    }
+
+    // the FB family is only explored if the compiler accepts the association syntax
+    let fb_probe = cfgs.iter().find(|c| c.0.fb_task.is_some()).map(|c| c.0.clone());
+    let mut fb_supported = true;
+    if let Some(c) = &fb_probe {
+        if let Err(ReplayErr::Compile(m)) = replay(c, &c.source(), &[]) {
+            fb_supported = false;
+            rep.assume(&format!("task-associated FB instances are not accepted by the compiler ({}); family fb2 skipped", norm_msg(&m)));
+        }
+    }
+    cfgs.retain(|c| fb_supported || c.0.fb_task.is_none());
+    if cfgs.is_empty() {
+        return machinery("no configuration generated");
+    }
+
+    // roots (compile every configuration once, in parallel)
+    let roots = par_map(&cfgs, ctx.threads, 8 << 20, None, |_, c| new_search(c.0.clone(), c.1));
+    let mut searches: Vec<Search> = roots.into_iter().map(|r| r.expect("no deadline")).collect();
+    for s in &searches {
+        if let Some(m) = &s.stats.machinery {
+            return machinery(format!("{m}\n--- source ---\n{}", s.src));
+        }
+    }
+
+    let max_level = searches.iter().map(|s| s.max_depth).max().unwrap_or(0);
+    let mut exhaustive = true;
+    let mut levels_completed_everywhere = 0usize;
+    for level in 1..=max_level {
+        // work items of this level, simplest configuration first
+        let mut work: Vec<(usize, usize, usize)> = Vec::new();
+        for (si, s) in searches.iter().enumerate() {
+            if s.finished || s.max_depth < level {
+                continue;
+            }
+            let mut st = 0;
+            while st < s.frontier.len() {
+                let en = (st + CHUNK).min(s.frontier.len());
+                work.push((si, st, en));
+                st = en;
+            }
+        }
+        if work.is_empty() {
+            break;
+        }
+        let sref = &searches;
+        let res = par_map(&work, ctx.threads, 8 << 20, Some(deadline), |_, &(si, st, en)| {
+            let s = &sref[si];
+            let mut outs = Vec::with_capacity((en - st) * s.evs.len());
+            for fi in st..en {
+                for ei in 0..s.evs.len() {
+                    if Instant::now() >= deadline {
+                        return (outs, false);
+                    }
+                    outs.push(eval_transition(s, fi, ei));
+                }
+            }
+            (outs, true)
+        });
+        // merge, deterministically, in work order
+        let mut incomplete: HashSet<usize> = HashSet::new();
+        let mut per_search: Vec<Vec<EvalOut>> = (0..searches.len()).map(|_| Vec::new()).collect();
+        for (&(si, _, _), r) in work.iter().zip(res) {
+            match r {
+                Some((outs, complete)) => {
+                    if !complete {
+                        incomplete.insert(si);
+                    }
+                    per_search[si].extend(outs);
+                }
+                None => {
+                    incomplete.insert(si);
+                }
+            }
+        }
+        for (si, outs) in per_search.into_iter().enumerate() {
+            let s = &mut searches[si];
+            if s.finished || s.max_depth < level {
+                continue;
+            }
+            let partial = incomplete.contains(&si);
+            let mut next = Vec::new();
+            for o in outs {
+                if let Some(m) = o.machinery {
+                    return machinery(format!("{m}\n--- source ---\n{}", s.src));
+                }
+                s.stats.transitions += 1;
+                if let Some(v) = o.violation {
+                    s.stats.add_violation(*v);
+                }
+                let Some(k) = o.key else { continue };
+                s.stats.min_alive = s.stats.min_alive.min(o.alive);
+                s.stats.primary_dead += !o.primary_alive as u64;
+                s.stats.hidden_missing += !o.hidden_seen as u64;
+                if partial {
+                    continue; // the level of this configuration is not complete: do not advance
+                }
+                if s.seen.insert(k) {
+                    s.stats.states += 1;
+                    let mut tl = s.frontier[o.fi].clone();
+                    tl.push(s.evs[o.ei]);
+                    if level == s.max_depth {
+                        s.stats.cycles_with_tasks += o.tasks_run as u64;
+                        s.stats.cycles_multi += o.multi as u64;
+                        s.stats.overruns += o.overruns;
+                        if s.stats.sample.is_none() && o.multi && o.overruns > 0 {
+                            s.stats.sample = Some(json!({"cfg": s.cfg.to_json(), "timeline": tl_json(&tl)}));
+                        }
+                    }
+                    next.push(tl);
+                }
+            }
+            if partial {
+                s.stats.capped = true;
+                s.finished = true;
+                exhaustive = false;
+                continue;
+            }
+            s.stats.depth_completed = level;
+            s.stats.trans_by_depth.push(s.stats.transitions);
+            s.frontier = next;
+            if s.frontier.is_empty() {
+                // every reachable canonical state has been expanded: complete for any depth
+                s.stats.depth_completed = s.max_depth;
+                s.finished = true;
+            } else if level == s.max_depth {
+                s.finished = true;
+                s.frontier = Vec::new();
+            }
+        }
+        if !exhaustive {
+            break;
+        }
+        levels_completed_everywhere = level;
+        eprintln!("[C06] level {level} done at {:.1}s", ctx.elapsed());
+    }
+
+    let mut fam: std::collections::BTreeMap<String, (u64, u64, u64, usize, usize)> = Default::default();
+    let mut fam_depth: std::collections::BTreeMap<String, Vec<u64>> = Default::default();
+    let mut states = 0u64;
+    let mut transitions = 0u64;
+    let mut with_tasks = 0u64;
+    let mut multi = 0u64;
+    let mut overruns = 0u64;
+    let mut done = 0u64;
+    let mut min_alive = usize::MAX;
+    let mut primary_dead = 0u64;
+    let mut hidden_missing = 0u64;
+    let n_cfgs = searches.len();
+    for s in searches {
+        let r = s.stats;
+        let c = &s.cfg;
+        let complete = r.depth_completed >= s.max_depth;
+        if !complete {
+            exhaustive = false;
+        }
+        done += complete as u64;
+        states += r.states;
+        transitions += r.transitions;
+        with_tasks += r.cycles_with_tasks;
+        multi += r.cycles_multi;
+        overruns += r.overruns;
+        min_alive = min_alive.min(r.min_alive);
+        primary_dead += r.primary_dead;
+        hidden_missing += r.hidden_missing;
+        let f = fam.entry(c.family.clone()).or_insert((0, 0, 0, usize::MAX, 0));
+        f.0 += 1;
+        f.1 += r.states;
+        f.2 += r.transitions;
+        f.3 = f.3.min(r.depth_completed);
+        f.4 = f.4.max(s.max_depth);
+        let fd = fam_depth.entry(c.family.clone()).or_default();
+        for (d, t) in r.trans_by_depth.iter().enumerate() {
+            if fd.len() <= d {
+                fd.push(0);
+            }
+            fd[d] += t;
+        }
+        if let Some(smp) = r.sample {
+            rep.sample(smp);
+        }
+        for (v, n) in r.violations {
+            let sig = v.signature.clone();
+            rep.violation(v);
+            *rep.violation_counts.entry(sig).or_insert(1) += n - 1;
+        }
+    }
+    if !exhaustive {
+        rep.cap(format!(
+            "wall cap of {wall} s: {done} of {n_cfgs} configurations explored to their full depth; every configuration explored to depth {levels_completed_everywhere}"
+        ));
+    }
+    if rep.violations.is_empty() && (transitions == 0 || with_tasks == 0 || multi == 0 || overruns == 0) {
+        return machinery(format!(
+            "vacuous exploration: transitions={transitions} histories_with_tasks={with_tasks} with_two_tasks_in_a_cycle={multi} overruns={overruns}"
+        ));
+    }
+    rep.set("configurations", n_cfgs as u64);
+    rep.set("configurations_completed", done);
+    rep.set("states", states);
+    rep.set("transitions", transitions);
+    rep.set("traces_validated_against_impl", transitions);
+    rep.set("depth_completed", fam.values().map(|f| f.3).min().unwrap_or(0) as u64);
+    rep.set(
+        "families",
+        J::Object(
+            fam.iter()
+                .map(|(k, v)| {
+                    (
+                        k.clone(),
+                        json!({"configurations": v.0, "states": v.1, "transitions": v.2, "depth_completed": v.3, "depth_planned": v.4}),
+                    )
+                })
+                .collect(),
+        ),
+    );
+    rep.set("cumulative_transitions_by_depth", json!(fam_depth));
+    rep.set("deepest_states_with_a_task_executed", with_tasks);
+    rep.set("deepest_states_with_two_tasks_in_one_cycle", multi);
+    rep.set("overruns_counted_on_deepest_states", overruns);
+    rep.set("readings", readings().len() as u64);
+    rep.set("histories_not_explained_by_documented_reading", primary_dead);
+    rep.set("histories_without_hidden_state_in_canon", hidden_missing);
+    if hidden_missing > 0 {
+        rep.assume("TaskState could not be read from the Debug text of Runtime for some histories: those were merged on the reference-model state only");
+    }
+    rep.set("min_readings_alive", if min_alive == usize::MAX { 0 } else { min_alive as u64 });
+    rep.set("exhaustive", exhaustive);
+    rep.set(
+        "completed_bound",
+        "every configuration of each family explored breadth-first to the family's depth_completed (see families): all timelines over the step alphabet up to that depth, merged on (reference-model state of every live reading, TaskState of the runtime); states are stored as 128-bit fingerprints",
+    );
+    rep.set("step_alphabet", "dt in {0,1,2,3,7} ms x new values of the SINGLE variables the configuration reads");
+    rep.assume("SINGLE variables change only between cycles (set by the harness right before the cycle, at the cycle's clock value)");
+    rep.assume("one program per task; the relative order of a task's program and its FB instance is not checked");
+    rep.assume("a history is accepted when at least one of the readings (A..E in the engine header) explains every cycle");
+    Ok(rep)
 }
 
 pub fn workers() -> Vec<(&'static str, WorkerFn)> {
